@@ -63,6 +63,18 @@ def _gen(rng, depth, o):
     return nodes
 
 
+def depth_of(nodes):
+    return 1 + max((depth_of(n.children) for n in nodes if n.children), default=0) if nodes else 0
+
+
+def thin_reps(nodes, rng, keep=0.1):
+    "deep trees: keep only a few repeaters, so that the output stays small"
+    for n in nodes:
+        if n.rep is not None and rng.random() > keep:
+            n.rep = None
+        thin_reps(n.children, rng, keep)
+
+
 def head(n):
     s = (n.name or '') + ''.join(n.mentions)
     if n.text is not None:
